@@ -570,16 +570,15 @@ func (pt paramGroupedSlice) getDecoratedValues(c containerStore) (reflect.Value,
 	return _noValue, false
 }
 
-// search the given container and its parents for matching group decorators
-// and call them to commit values. If any decorators return an error,
-// that error is returned immediately. If all decorators succeeds, nil is returned.
-// The order in which the decorators are invoked is from the top level scope to
-// the current scope, to account for decorators that decorate values that were
-// already decorated.
+// search the given container and its parents for the closest matching group
+// decorator that is not already running and call it to commit its values. If
+// it returns an error, that error is returned; otherwise nil is returned.
+// A decorator that consumes the group it decorates builds that parameter from
+// its own scope, which calls the decorators further up in turn (values that
+// were already decorated get decorated again on the way down); a decorator
+// that does not consume the group needs none of them, so they are not run.
 func (pt paramGroupedSlice) callGroupDecorators(c containerStore) error {
-	stores := c.storesToRoot()
-	for i := len(stores) - 1; i >= 0; i-- {
-		c := stores[i]
+	for _, c := range c.storesToRoot() {
 		if d, found := c.getGroupDecorator(pt.Group, pt.Type.Elem()); found {
 			if d.State() == decoratorOnStack {
 				// This decorator is already being run. Avoid cycle
@@ -593,6 +592,7 @@ func (pt paramGroupedSlice) callGroupDecorators(c containerStore) error {
 					Reason: err,
 				}
 			}
+			return nil
 		}
 	}
 	return nil
